@@ -27,7 +27,7 @@ def finish (s : St) : String :=
   let segs := ((s.bound, s.cur.reverse) :: s.segs).reverse
   let whole : List (Option String) :=
     [validateDcl "pdi.ringdiff" evs, validateDcl "pdi.vt2det" evs, validateDcl "pdi.det2vt" evs,
-     validateCache evs]
+     validateCache evs, validateCacheProtocol evs]
   let perSeg : List (Option String) :=
     segs.flatMap fun (b, es) =>
       -- a segment without any work item of a kind is a segment in which that kind of pass did not run
